@@ -24,7 +24,7 @@ def parse_behaviours(text):
 
 
 class Harness:
-    def __init__(self, fails):
+    def __init__(self, fails, wsmode="abs"):
         import logging
         import warnings
 
@@ -37,6 +37,12 @@ class Harness:
         self.fails = set(fails)
         self.wd = Path(tempfile.mkdtemp(prefix="xvws-", dir=os.environ.get("XV_SCRATCH", "/dev/shm")))
         harness = self
+        # how the workspace is designated: an absolute path, a path relative to the current directory, or (as
+        # `run-experiment --workspace ID --workdir DIR` does) settings whose path was overridden with a relative one
+        self.wsmode = wsmode
+        self.oldcwd = os.getcwd()
+        if wsmode != "abs":
+            os.chdir(self.wd.parent)
 
         class FakeProc(Process):
             def __init__(self, script):
@@ -81,7 +87,19 @@ class Harness:
             self.ids[n] = (str(c.__xpmtype__.identifier), c.__xpm__.identifier.all.hex())
 
     def close(self):
+        os.chdir(self.oldcwd)
         shutil.rmtree(self.wd, ignore_errors=True)
+
+    def env(self):
+        if self.wsmode == "abs":
+            return self.wd
+        if self.wsmode == "rel":
+            return Path(self.wd.name)
+        from experimaestro.settings import WorkspaceSettings
+
+        ws_env = WorkspaceSettings("main", path=self.wd.parent / "elsewhere")
+        ws_env.path = Path(self.wd.name)          # settings.find_workspace(workspace=..., workdir=...)
+        return ws_env
 
     # --- actions
     def run(self, xp_name, jobs, how):
@@ -91,11 +109,11 @@ class Harness:
         if how == "gen":
             from experimaestro import RunMode
 
-            with experiment(self.wd, xp_name, launcher=self.launcher, port=-1, run_mode=RunMode.GENERATE_ONLY):
+            with experiment(self.env(), xp_name, launcher=self.launcher, port=-1, run_mode=RunMode.GENERATE_ONLY):
                 for n in sorted(jobs):
                     self.W(n=int(n)).tag("n", n).submit()
             return
-        xp = experiment(self.wd, xp_name, launcher=self.launcher, port=-1)
+        xp = experiment(self.env(), xp_name, launcher=self.launcher, port=-1)
         xp.__enter__()
         try:
             tasks = []
@@ -186,6 +204,11 @@ class Harness:
         for x in xps:
             for name, store in (("jobs", idx), ("jobs.bak", bak)):
                 store[x] = sorted(n for n, (task, ident) in self.ids.items() if (self.wd / "xp" / x / name / task / ident).is_symlink())
+                # "each to its job directory": a link that exists leads to the directory of that job, whatever the current directory
+                for n, (task, ident) in self.ids.items():
+                    link = self.wd / "xp" / x / name / task / ident
+                    if link.is_symlink() and os.path.realpath(link) != os.path.realpath(self.wd / "jobs" / task / ident):
+                        store[x].append(f"{n}: link to {os.readlink(link)} does not lead to the job directory")
             bakE[x] = (self.wd / "xp" / x / "jobs.bak").is_dir()
         return {"dirs": dirs, "idx": idx, "bak": bak, "bakE": bakE}
 
@@ -196,7 +219,9 @@ def norm(st):
 
 def replay(beh, fails=("3",)):
     """Returns None if the real workspace follows the behaviour, else the first difference"""
-    h = Harness(fails)
+    import zlib
+
+    h = Harness(fails, ("abs", "abs", "rel", "settings-rel")[zlib.crc32(json.dumps(beh, sort_keys=True).encode()) % 4])
     try:
         xps = sorted(beh[0]["st"]["idx"])
         for k, ev in enumerate(beh):
